@@ -173,6 +173,21 @@ CLAIMED = {
                 "that the new darts lie in pairwise distinct vertices of the result (oracle only).",
         "design_ref": "DESIGN.md §7 C14",
     },
+    "C11": {
+        "text": "Lean 4 theorems: a map returned by the VTK import is WF 3 for EVERY point list and cell list (conforming or not); the pre-sew "
+                "map has one b1-cycle of consecutive darts per cell carrying the cell's points in order; a returned map keeps those darts, "
+                "b0 and b1, its b2 only joins sides traversed in opposite directions and — when no directed side is repeated — joins every "
+                "such pair; a 2-sew merging equal coordinates keeps them; export: points = iter_vertices values in order, cells = Lines of "
+                "2-free edges then faces, each polygon is a duplicate-free b1 walk from the face id (the whole cycle on closed faces) with "
+                "indices = positions of the C03 vertex ids. Tie: the real to_vtk_ascii/binary output is parsed back with vtkio and compared "
+                "with the model's piece; real imports through from_vtk_file (ascii and binary temp files) are compared with the model; "
+                "Python oracle compares meshes up to renumbering (faces as cyclic coordinate sequences, glued sides, boundary).",
+        "note": "Trusted: Lean kernel + 3 standard axioms; vtkio reader/writer outside the model. NOT proved: import of a conforming list "
+                "never panics; coordinates survive all sews; the export-import isomorphism. Known finding C11-crack: two 2-free darts "
+                "running between the same two vertices in opposite directions (a crack) are sewn by the round trip (the format carries "
+                "no adjacency; not repairable in the importer without changing the file contents).",
+        "design_ref": "DESIGN.md §7 C11",
+    },
 }
 
 REASONS_NOT_YET = "check not built yet in this round (planned, see DESIGN.md §7); no claim is made"
